@@ -350,11 +350,14 @@ class Built(object):
         self.mems = []       # index -> MemBlock
 
 
-def build(script, perm_seed=None, block=None, noise=0):
+def build(script, perm_seed=None, block=None, noise=0, stage=None):
     """Instantiate the script in a fresh Block with Block.add_net (the documented advanced
     construction API). perm_seed permutes wire creation and net insertion order (any order
     is legal for a netlist); noise allocates garbage wires in a throw-away block between
-    statements to perturb object addresses and name counters."""
+    statements to perturb object addresses and name counters.
+    stage = {'mems': m0, 'wires': w0, 'nets': n0, 'hook': f}: the first m0/w0/n0 entries (a
+    complete design of their own) are built first, f(built) is called (the user exports or
+    simulates the design as it then is), and the rest is added to the same Block."""
     import pyrtl
     b = Built()
     b.block = block if block is not None else pyrtl.Block()
@@ -366,6 +369,22 @@ def build(script, perm_seed=None, block=None, noise=0):
         rng = random.Random(perm_seed)
         rng.shuffle(worder)
         rng.shuffle(norder)
+    if stage is not None:
+        # stable partition: first-stage entries first, each part in its permuted order
+        worder = [i for i in worder if i < stage['wires']] + [i for i in worder if i >= stage['wires']]
+        norder = [i for i in norder if i < stage['nets']] + [i for i in norder if i >= stage['nets']]
+        first = dict(script, mems=script['mems'][:stage['mems']])
+        _build_part(b, first, worder[:stage['wires']], norder[:stage['nets']], rng, noise, 0)
+        stage['hook'](b)
+        rest = dict(script, mems=script['mems'][stage['mems']:])
+        return _build_part(b, rest, worder[stage['wires']:], norder[stage['nets']:], rng, noise,
+                           stage['mems'])
+    return _build_part(b, script, worder, norder, rng, noise, 0)
+
+
+def _build_part(b, script, worder, norder, rng, noise, mem_base):
+    import pyrtl
+    blk = b.block
     junk = pyrtl.Block()
     keep = []
     class _Hole(object):
@@ -378,14 +397,19 @@ def build(script, perm_seed=None, block=None, noise=0):
             junk_objs = [_Hole() for _ in range(rng.randrange(0, 40 * noise))]
             keep.append(junk_objs[::rng.choice([2, 3, 5])])
             del junk_objs
+        mrp = mwp = None
+        if m.get('ports_exact'):
+            gi = next(i for i, mm in enumerate(script['mems']) if mm is m) + mem_base
+            mrp = max(1, sum(1 for n in script['nets'] if n['op'] == 'm' and n['p'] == gi))
+            mwp = max(1, sum(1 for n in script['nets'] if n['op'] == '@' and n['p'] == gi))
         if m.get('rom'):
             mem = pyrtl.RomBlock(m['bw'], m['aw'], rom_pyrtl_data(m['rom'], m['bw']),
-                                 name=m.get('name', ''), max_read_ports=None,
+                                 name=m.get('name', ''), max_read_ports=mrp,
                                  asynchronous=m.get('async', False),
                                  pad_with_zeros=m['rom'].get('pad', False), block=blk)
         else:
             mem = pyrtl.MemBlock(m['bw'], m['aw'], name=m.get('name', ''),
-                                 max_read_ports=None, max_write_ports=None,
+                                 max_read_ports=mrp, max_write_ports=mwp,
                                  asynchronous=m.get('async', False), block=blk)
         b.mems.append(mem)
     for i in worder:
